@@ -309,3 +309,25 @@ def run(ck):
         iff = next((n for n in walk(cc['body']) if n.get('k') == 'If'), None)
         ok = bool(errs) and iff is not None and any(x.get('m') == 'children' for x in H.calls_in(iff['c']))
         ck.ob('R11.6', 'confine-children-diagnoses', ok, L.loc(cc['body']), 'if the node has a child, an error is pushed')
+
+    # ---- R11.7 the element kind of an object is decided once, by the class-ancestry dispatch -----------------------------------
+    ck.rule('R11.7', 'element kinds are constructed only by the class-ancestry dispatch (UiObject::build / LayoutItemContent::build)')
+    n_ct = 0
+    for ty, home in (('uigen::object::UiObject', 'UiObject::build'), ('uigen::layout::LayoutItemContent', 'LayoutItemContent::build')):
+        outside = {}
+        for fn in L.fn_list:
+            if fn.get('x') in ('Clone', 'Debug') or fn.get('impl_trait') in ('std::clone::Clone',):
+                continue
+            for n in walk(fn['body']):
+                if n.get('dk') == 'Ctor' and n.get('k') in ('Call', 'Path') and (n.get('def') or '').rsplit('::', 1)[0].endswith(ty.split('::', 1)[1]):
+                    if n.get('k') == 'Path' and (H.parents(fn).get(id(n)) or {}).get('f') is n:
+                        continue   # callee position of the Call already counted
+                    # patterns are not constructions (PTS/PPath nodes are not Call/Path expression nodes)
+                    n_ct += 1
+                    if short(fn['path']) != home:
+                        outside.setdefault(short(fn['path']), []).append(n)
+        ck.ob('R11.7', 'kind-constructed-only-in|%s' % home, not outside, L.loc(next(iter(outside.values()))[0]) if outside else '',
+              'every %s variant is built inside %s' % (ty.split('::')[-1], home) if not outside else
+              '%s builds a %s variant itself (%s): the object can end up as another element kind than its class prescribes (e.g. a menu re-wrapped as a plain widget is no longer added to its parent)' %
+              (sorted(outside), ty.split('::')[-1], sorted({(x.get('def') or '').split('::')[-1] for v in outside.values() for x in v})))
+    ck.floor('R11.7', n_ct, 9, 'constructions of UiObject / LayoutItemContent variants')
